@@ -315,9 +315,12 @@ Proof.
     rewrite (proj1 (lt_pow2_bits v 8) Hv n Hhi). reflexivity.
 Qed.
 
+Lemma land255_mod x : N.land x 255 = x mod 256.
+Proof. change 255 with (N.ones 8). rewrite N.land_ones. reflexivity. Qed.
+
 Lemma bval_low8 x : bval (low8 x) = x mod 256.
 Proof.
-  unfold low8, bval.
+  unfold low8, bval. rewrite land255_mod.
   destruct (Byte.of_N (x mod 256)) as [b|] eqn:E.
   - apply Byte.to_of_N. exact E.
   - apply Byte.of_N_None_iff in E.
@@ -357,3 +360,6 @@ Print Assumptions crc_update_one_byte.
 Print Assumptions crc_update_diverge.
 Print Assumptions crc_step_tab_eq.
 Print Assumptions crc_update_tab_eq.
+
+Lemma digest_write_eq d p : digest_write d p = crc_update d p.
+Proof. unfold digest_write. apply crc_update_tab_eq. Qed.
